@@ -73,4 +73,24 @@ ShUnbSteps(b, s) ==
       ip  == [j \in 1..Len(b) |-> IF p[j] = 1 THEN 0 ELSE b[j]]        \* index into the padded view
   IN SubSeq(ip, Len(b) - Len(s) + 1, Len(b))                            \* drop the leading zeros
 
+\* ---- size coincidences between batch axes and data axes ---------------------------------------
+\* A data tensor has shape batch \o <<n, d>>, a kernel matrix batch \o <<n, m>>, a diagonal batch \o <<n>>.  Code that tells
+\* these apart by counting axes or by looking at trailing sizes (`res.dim() == ...`, `res.shape[-2:] == (n, m)`, view, squeeze)
+\* can take a batch axis for a data axis only where their sizes are EQUAL.  Every such equality is a class of its own:
+\* the coincidence class of (batch shape s, rows n, columns m, features d) says which batch axes (counted from the right)
+\* have the size of which data axis, and which data axes have equal sizes.
+ShCoAxes(s, v) == {k \in 1..Len(s) : ShRDim(s, k) = v}
+
+ShCoClass(s, n, m, d) == [rows |-> ShCoAxes(s, n), cols |-> ShCoAxes(s, m), feat |-> ShCoAxes(s, d),
+                          square |-> n = m, rowsfeat |-> n = d]
+
+\* the numbers of rows that realise every class of shape s: a generic one (the size of no axis), the feature size, every axis size
+ShCoRows(s, generic, d) == {generic, d} \cup ShRange(s)
+
+\* `rows` covers the classes of s: every batch axis coincides with some choice, one choice coincides with nothing, one with d
+ShCoCovered(s, rows, d) ==
+  /\ \A k \in 1..Len(s) : \E n \in rows : k \in ShCoAxes(s, n)
+  /\ \E n \in rows : ShCoAxes(s, n) = {} /\ n # d
+  /\ d \in rows
+
 =============================================================================
